@@ -1,6 +1,7 @@
 package pauditd
 
 import (
+	"context"
 	"encoding/json"
 	"errors"
 	"fmt"
@@ -14,8 +15,10 @@ import (
 	"github.com/elastic/go-libaudit/v2/auparse"
 
 	"github.com/metal-toolbox/audito-maldito/internal/common"
+	"github.com/metal-toolbox/audito-maldito/internal/health"
 	"github.com/metal-toolbox/audito-maldito/internal/verif/auditgen"
 	"github.com/metal-toolbox/audito-maldito/internal/verif/mc"
+	"github.com/metal-toolbox/audito-maldito/processors/auditd"
 	"github.com/metal-toolbox/audito-maldito/processors/auditd/sessiontracker"
 )
 
@@ -633,9 +636,79 @@ func runC15(t *testing.T, run *mc.Run) int {
 			}
 		}
 	}
+	// a malformed line behind a backlog: while the processor is inside an event write (held by the output) the line
+	// buffer fills with k well-formed records of the session, one malformed line and three more records. The
+	// well-formed records in front of the malformed one were received: each still becomes its event, and the error
+	// names the malformed line.
+	for _, k := range []int{1, 5, 63, 64, 65, 200} {
+		n++
+		var msg string
+		bubble(t, func() {
+			r := &rig{audits: make(chan string, 1000), logins: make(chan common.RemoteUserLogin), w: &wrec{}}
+			r.ew = auditevent.NewDefaultAuditEventWriter(r.w)
+			r.ctx, r.cancel = context.WithCancel(context.Background())
+			a := auditd.Auditd{Audits: r.audits, Logins: r.logins, EventW: r.ew, Health: health.NewSingleReadinessHealth(auditd.AuditdProcessorComponentName)}
+			go func() {
+				r.ret = a.Read(r.ctx)
+				r.returned = true
+			}()
+			synctest.Wait()
+			defer r.stop()
+			r.offerLogin(mkLogin(bindPID, "1"))
+			r.audits <- bindLines("7") + "\n"
+			r.audits <- auditgen.Simple("USER_START", 1700000021, 3001, "7", "4242", "success").Recs[0].Line + "\n"
+			synctest.Wait()
+			gate := make(chan error)
+			r.w.gate = gate
+			defer func() {
+				select {
+				case gate <- nil:
+				default:
+				}
+				synctest.Wait()
+			}()
+			r.audits <- auditgen.Simple("USER_ACCT", 1700000022, 3002, "7", "4242", "success").Recs[0].Line + "\n"
+			synctest.Wait() // the parser is inside the write of an event
+			for i := 0; i < k; i++ {
+				r.audits <- auditgen.Simple("USER_ACCT", 1700000030+int64(i), 3100+i, "7", "4242", "success").Recs[0].Line + "\n"
+			}
+			bad := "type=USER_ACCT msg=audit(17000000xx.123:9999): pid=4242 garbage"
+			r.audits <- bad + "\n"
+			for i := 0; i < 3; i++ {
+				r.audits <- auditgen.Simple("USER_ACCT", 1700000900+int64(i), 9100+i, "7", "4242", "success").Recs[0].Line + "\n"
+			}
+			select {
+			case gate <- nil:
+			default:
+			}
+			vsleep(10 * time.Second)
+			if !r.returned {
+				msg = "the processor is still running although a malformed line was received"
+				return
+			}
+			if !strings.Contains(fmt.Sprint(r.ret), "17000000xx") {
+				msg = fmt.Sprintf("the error does not identify the malformed line: %v", r.ret)
+				return
+			}
+			evs, _ := r.w.events()
+			got := 0
+			for _, e := range evs {
+				if e.Metadata.AuditID == "7" && e.LoggedAt.Unix() < 1700000900 {
+					got++
+				}
+			}
+			if got != 3+k {
+				msg = fmt.Sprintf("%d records of the session were received in front of the malformed line (each a complete event), %d events were handed to the correlator and written", 3+k, got)
+			}
+		})
+		if msg != "" {
+			run.Violation("C15:malformed-line-behind-a-backlog", map[string]any{"well_formed_lines_queued_in_front": k},
+				fmt.Sprintf("a malformed line with %d well-formed records queued in front of it in the line buffer: %s", k, msg))
+		}
+	}
 	run.Note("observation, not judged (the statement speaks of non-empty lines): a blank record delivered as \"\\n\": %s", short(blank, 160))
 	cov := mc.Coverage{Level: "model_checking", States: len(shapes), Transitions: n, Traces: n, Evaluations: n, Distinct: interleaved, Exhaustive: complete, Samples: samples,
-		Rule:  fmt.Sprintf("every merge of the record sequences of %d kernel events (5-record SYSCALL group, simple record, 4-record SYSCALL group ending in EOE) that keeps each event's internal order, x {no fault (every merge); for every merge (thorough) / every 25th merge (quick): each of 10 malformed line shapes at every position; output write failing at the k-th write for every k (login first, and login last so that the failure hits the release of held events), with the plain error and with errors that also match context.Canceled / DeadlineExceeded / ErrClosedPipe / EOF / EPIPE; 4 kinds of invalid login (no source, pid 0, no credential id, and a copy of a login that is waiting with its credential id removed) at every position; records of every length within 2 bytes of 1024 / 4096 / 8192 / 8970 / 9012 / 16384 / 65536 (thorough: every length 8900..9100), with and without their newline; cancellation 0 / 1 / 1900 ms after the last line while a simple record, an unfinished SYSCALL group or both are still held by the reassembler (they are flushed to the correlator)}, delivered line by line to the real Auditd.Read in a synctest bubble ('does not return' = durably blocked). states = distinct stream shapes; distinct_nontrivial = shapes in which records of different kernel events interleave", nev),
+		Rule:  fmt.Sprintf("every merge of the record sequences of %d kernel events (5-record SYSCALL group, simple record, 4-record SYSCALL group ending in EOE) that keeps each event's internal order, x {no fault (every merge); for every merge (thorough) / every 25th merge (quick): each of 10 malformed line shapes at every position; output write failing at the k-th write for every k (login first, and login last so that the failure hits the release of held events), with the plain error and with errors that also match context.Canceled / DeadlineExceeded / ErrClosedPipe / EOF / EPIPE; 4 kinds of invalid login (no source, pid 0, no credential id, and a copy of a login that is waiting with its credential id removed) at every position; records of every length within 2 bytes of 1024 / 4096 / 8192 / 8970 / 9012 / 16384 / 65536 (thorough: every length 8900..9100), with and without their newline; a malformed line with 1 / 5 / 63 / 64 / 65 / 200 well-formed records queued in front of it in the line buffer (each still becomes its event; the error names the line); cancellation 0 / 1 / 1900 ms after the last line while a simple record, an unfinished SYSCALL group or both are still held by the reassembler (they are flushed to the correlator)}, delivered line by line to the real Auditd.Read in a synctest bubble ('does not return' = durably blocked). states = distinct stream shapes; distinct_nontrivial = shapes in which records of different kernel events interleave", nev),
 		Extra: map[string]any{"kernel_events": nev, "stream_shapes": len(shapes), "malformed_shapes": len(malformed)}}
 	cov.Assumptions = []string{"testing/synctest durable-blocking semantics and virtual clock", "events are observed through the real tracker with the session bound, i.e. at the output writer"}
 	return run.Finish(cov)
